@@ -8,8 +8,14 @@ require (
 )
 
 require (
+	golang.org/x/mod v0.22.0 // indirect
+	golang.org/x/sync v0.10.0 // indirect
+)
+
+require (
 	golang.org/x/crypto v0.0.0-20180527072434-ab813273cd59 // indirect
-	golang.org/x/sys v0.0.0-20180525142821-c11f84a56e43 // indirect
+	golang.org/x/sys v0.29.0 // indirect
+	golang.org/x/tools v0.29.0
 )
 
 replace github.com/go-fed/activity => /repo
